@@ -616,6 +616,8 @@ def _execute_sync(scn, tape, L):
         runner = OpRunner(run, scn, obj, False)
         run.results = [[] for _ in actors]
         run.pre = []
+        if multi and cfg.get('track_states', True):
+            sched.state_fn = lambda: _abstract_state(run)
         if not multi:
             try:
                 for op in scn.get('pre', []) + actors[0]:
@@ -665,6 +667,21 @@ def _execute_sync(scn, tape, L):
         if sys.gettrace() is not None and sched is not None:
             sys.settrace(None)
     return _finish(run)
+
+
+def _abstract_state(run):
+    """(per-stream phase, store occupancy signature, lock owners) — hashed; sampled at context switches."""
+    dev = run.device
+    streams = tuple((s.local, len(s.sent_payloads), len(s.read_payloads), s.dev_clse_emitted, s.host_closed) for s in dev.streams.values())
+    sh = run.store_shadow
+    store = tuple(sorted((k, len(v)) for k, v in sh.model.q.items() if v)) if sh is not None else ()
+    locks = []
+    obj = run.obj
+    for holder in (obj, getattr(obj, '_io_manager', None)):
+        for k, v in sorted(vars(holder).items()):
+            if isinstance(v, SimLock):
+                locks.append(getattr(v.owner, 'idx', None))
+    return h64((streams, store, tuple(locks)))
 
 
 def _lock_states(obj):
